@@ -77,6 +77,14 @@ static void one_case(uint64_t N, uint64_t nrows, uint64_t ncols, uint64_t a_size
       }
   for (uint64_t l = 0; l < a_size; l++)
     for (uint64_t i = 0; i < N; i++) zvec_limb(&A, l)[i] = magn ? ((rng_u64(r) & 1) ? amax : -amax) : rng_range(r, -amax, amax);
+  // "scaled" limbs: every coefficient of some input limbs is a non-zero multiple of 2^32 (32-bit data lifted to 64 bits);
+  // only where the row sum stays inside the 2^52 budget
+  if (!magn && ((rep + nrows + a_size) % 3 == 1) && N * (nrows ? nrows : 1) * (uint64_t)mmax <= (1u << 17)) {
+    for (uint64_t l = 0; l < a_size; l++)
+      if (l == 0 || (rng_u64(r) & 1))
+        for (uint64_t i = 0; i < N; i++) zvec_limb(&A, l)[i] = (int64_t)((rng_u64(r) & 1) ? 1 : -1) * (int64_t)(1 + (rng_u64(r) & 1)) * ((int64_t)1 << 32);
+    cnt("scaled_input_limbs_cases", 1);
+  }
   snap_t sm, sa, sp;
   snap_take(&sm, mat, nrows * ncols * N * 8);
   zvec_snap(&sa, &A);
